@@ -58,6 +58,7 @@ inductive Via where
   | nbPersons (role : List Nat)       -- `group.nb_persons(role=ROLE)` (no dependency)
   | hasRole (g : Nat) (role : List Nat)   -- `person.has_role(ROLE)`, `ROLE` a role of group entity `g` (no dependency)
   | param                             -- `parameters(period).p0` in a three-argument formula (no dependency)
+  | nth (k : Nat)                     -- `group.value_nth_person(k, group.members(dep, period), default=0)`
 deriving DecidableEq, Repr
 
 /-- the value of the one parameter of the generated systems (parameters are C06/C07's subject) -/
@@ -249,6 +250,17 @@ def wr (p : Id) (o : Obj) : HM Unit := fun h =>
   match h.get? p with
   | some _ => (.ok (), h.put p o)
   | none => (.error .bad, h)
+/-- storages, directories, tracers and sets: the objects that refer to nothing a simulation is made of -/
+def Obj.leafKind : Obj → Nat
+  | .sim _ => 0 | .pop _ => 0 | .holder _ => 0
+  | .store _ => 1 | .disk _ => 2 | .dir _ => 3 | .tracer _ => 4 | .inval _ => 5
+
+/-- assign the content of a storage / directory / tracer / set: the object keeps its class -/
+def wrLeaf (p : Id) (o : Obj) : HM Unit := fun h =>
+  match h.get? p with
+  | some old => if old.leafKind = o.leafKind ∧ o.leafKind ≠ 0 then (.ok (), h.put p o) else (.error .bad, h)
+  | none => (.error .bad, h)
+
 /-- allocate a new object at the end of region `r` -/
 def new (r : Nat) (o : Obj) : HM Id := fun h =>
   match h[r]? with
@@ -266,7 +278,17 @@ def mapMH {α β : Type} (f : α → HM β) : List α → HM (List β)
     pure (b :: bs)
 
 def rdSim (p : Id) : HM SimObj := do ofOption .bad (← rd p).sim?
+/-- assign attributes of a simulation -/
+def updSim (x : Id) (f : SimObj → SimObj) : HM Unit := do
+  let so ← rdSim x
+  wr x (.sim (f so))
+
 def rdPop (p : Id) : HM PopObj := do ofOption .bad (← rd p).pop?
+/-- assign attributes of a population -/
+def updPop (p : Id) (f : PopObj → PopObj) : HM Unit := do
+  let po ← rdPop p
+  wr p (.pop (f po))
+
 def rdHolder (p : Id) : HM HolderObj := do ofOption .bad (← rd p).holder?
 def rdStore (p : Id) : HM StoreObj := do ofOption .bad (← rd p).store?
 def rdDisk (p : Id) : HM DiskObj := do ofOption .bad (← rd p).disk?
@@ -329,17 +351,17 @@ def diskInsert (did : Id) (v : Vec) (p : Period) : HM Unit := do
   let d ← rdDisk did
   let k := keyOf d.eternal p
   let dir ← rdDir d.dir
-  wr d.dir (.dir ⟨alPut dir.files (d.var, k) v⟩)
-  wr did (.disk { d with files := insertNew d.files k })
+  wrLeaf d.dir (.dir ⟨alPut dir.files (d.var, k) v⟩)
+  wrLeaf did (.disk { d with files := insertNew d.files k })
 
 /-- `OnDiskStorage.delete` (forgets the files, does not remove them) -/
 def diskRemove (did : Id) (p : Option Period) : HM Unit := do
   let d ← rdDisk did
   match p with
-  | none => wr did (.disk { d with files := [] })
+  | none => wrLeaf did (.disk { d with files := [] })
   | some p =>
     let l ← ofPeriod (keepOutside (keyOf d.eternal p) (fun x => x) d.files)
-    wr did (.disk { d with files := l })
+    wrLeaf did (.disk { d with files := l })
 
 /-! ## holders -/
 
@@ -354,7 +376,7 @@ def dataStorageDir (r : Nat) (sid : Id) : HM Id := do
   | some d => pure d
   | none => do
     let d ← new r (.dir ⟨[]⟩)
-    wr sid (.sim { so with dir := some d })
+    updSim sid (fun so => { so with dir := some d })
     pure d
 
 /-- the `_disk_storage` of a new holder: none without a memory configuration or for a priority variable,
@@ -383,8 +405,7 @@ def createHolder (sys : Sys) (r : Nat) (pid : Id) (v : Var) : HM (Id × HolderOb
     | some mc => decide (v ∈ mc.drop)
   let ho : HolderObj := ⟨v, pid, po.sim, mem, disk, noStore⟩
   let hid ← new r (.holder ho)
-  let po ← rdPop pid
-  wr pid (.pop { po with holders := po.holders ++ [(v, hid)] })
+  updPop pid (fun po => { po with holders := po.holders ++ [(v, hid)] })
   pure (hid, ho)
 
 /-- `simulation.get_holder(variable)`: `get_variable_population(variable).get_holder(variable)` -/
@@ -443,10 +464,10 @@ def holderSet (sys : Sys) (ho : HolderObj) (p : Period) (v : Vec) : HM Unit := d
   if !isEternal decl ∧ (decl.defPeriod ≠ p.unit ∨ p.size > 1) then fail .value else do
   let st ← rdStore ho.mem
   match ho.disk with
-  | none => wr ho.mem (.store (st.insert v p))
+  | none => wrLeaf ho.mem (.store (st.insert v p))
   | some did =>
     match st.find p with
-    | some _ => wr ho.mem (.store (st.insert v p))
+    | some _ => wrLeaf ho.mem (.store (st.insert v p))
     | none => do
       -- `psutil.virtual_memory().percent >= self.simulation.memory_config.max_memory_occupation_pc`
       let so ← rdSim ho.sim
@@ -467,7 +488,7 @@ def putInCache (sys : Sys) (ho : HolderObj) (p : Period) (v : Vec) : HM Unit :=
 def holderDelete (ho : HolderObj) (p : Option Period) : HM Unit := do
   let st ← rdStore ho.mem
   let st' ← ofPeriod (st.remove p)
-  wr ho.mem (.store st')
+  wrLeaf ho.mem (.store st')
   match ho.disk with
   | some did => diskRemove did p
   | none => pure ()
@@ -503,8 +524,7 @@ def deleteArrays (sys : Sys) (x : Id) (v : Var) (p : Option Period) : HM Unit :=
 /-- `simulation.trace = b`: the setter installs a *new* tracer -/
 def setTrace (x : Id) (b : Bool) : HM Unit := do
   let t ← new x.reg (.tracer ⟨b, [], []⟩)
-  let so ← rdSim x
-  wr x (.sim { so with trace := b, tracer := t })
+  updSim x (fun so => { so with trace := b, tracer := t })
 
 /-- `_check_period_consistency` -/
 def periodConsistent (decl : VarDecl) (p : Period) : Bool :=
@@ -534,7 +554,7 @@ def checkForCycle (x : Id) (v : Var) (p : Period) : HM Unit := do
   if p ∈ previous then fail .cycle else
   if previous.length ≥ so.msl then do
     let inv ← rdInval so.inval
-    wr so.inval (.inval (addAll inv (spiralFrames so.msl v tr.stack.reverse 0)))
+    wrLeaf so.inval (.inval (addAll inv (spiralFrames so.msl v tr.stack.reverse 0)))
     fail .spiral
   else pure ()
 
@@ -542,7 +562,7 @@ def checkForCycle (x : Id) (v : Var) (p : Period) : HM Unit := do
 def tracerStart (x : Id) (v : Var) (p : Period) : HM Unit := do
   let so ← rdSim x
   let tr ← rdTracer so.tracer
-  wr so.tracer (.tracer { tr with
+  wrLeaf so.tracer (.tracer { tr with
     stack := tr.stack ++ [(v, p)],
     roots := if tr.full ∧ tr.stack.isEmpty then tr.roots ++ [(v, p)] else tr.roots })
 
@@ -550,7 +570,7 @@ def tracerStart (x : Id) (v : Var) (p : Period) : HM Unit := do
 def tracerEnd (x : Id) : HM Unit := do
   let so ← rdSim x
   let tr ← rdTracer so.tracer
-  wr so.tracer (.tracer { tr with stack := tr.stack.dropLast })
+  wrLeaf so.tracer (.tracer { tr with stack := tr.stack.dropLast })
 
 def purgeEach (sys : Sys) (x : Id) : List Key → HM Unit
   | [] => pure ()
@@ -567,8 +587,7 @@ def purge (sys : Sys) (x : Id) : HM Unit := do
     let inv ← rdInval so.inval
     purgeEach sys x inv
     let i ← new x.reg (.inval [])
-    let so ← rdSim x
-    wr x (.sim { so with inval := i })
+    updSim x (fun so => { so with inval := i })
   else pure ()
 
 def vadd (a b : Vec) : Vec := List.zipWith (· + ·) a b
@@ -594,11 +613,23 @@ the default roles) -/
 def PopObj.positions (po : PopObj) : List Nat :=
   po.membersPosition.getD (appearancePositions po.membersEntityId)
 
-/-- `GroupPopulation.ordered_members_map`: `numpy.argsort(members_entity_id)` (insertion sort on the short
-arrays of the correspondence: stable) -/
-def PopObj.orderedMap (po : PopObj) : List Nat :=
-  (List.range po.membersEntityId.length).mergeSort
-    (fun i j => decide (po.membersEntityId[i]?.getD 0 ≤ po.membersEntityId[j]?.getD 0))
+/-- `GroupPopulation.value_nth_person(k, a, default=0)`: for every group with more than `k` members, the value
+of its member at position `k`.  (`ordered_members_map`, an `argsort` of `members_entity_id` whose order
+inside a group is numpy's, only serves to enumerate the members group by group: it has no influence on the
+result and is not modelled.)  `none`: the positions are not a numbering of each group's members — numpy
+raises on the shape mismatch. -/
+def nthPerson (mei positions : List Nat) (a : Vec) (count k : Nat) : Option Vec :=
+  let rows := (mei.zip positions).zip a
+  let sel := rows.filter (fun x => x.1.2 = k)
+  let nb := fun g => (mei.filter (fun x => x = g)).length
+  let targets := (List.range count).filter (fun g => nb g > k)
+  if sel.length ≠ targets.length then none else
+  some ((List.range count).map (fun g =>
+    if nb g > k then
+      match sel.find? (fun x => x.1.1 = g) with
+      | some x => x.2
+      | none => 0
+    else 0))
 
 /-- `members_role == role`, or the disjunction over the sub-roles -/
 def roleBits (roles : List Nat) (role : List Nat) : List Bool := roles.map (fun r => role.contains r)
@@ -666,6 +697,15 @@ def evalTerm (sys : Sys) (rec : Id → Var → Period → HM Vec) (pid : Id) (en
     let go ← rdPop gid
     pure ((roleBits go.roles role).map (fun b => if b then 1 else 0))
   | .param => pure (List.replicate po.count paramValue)
+  | .nth k => do
+    -- `population.value_nth_person(k, population.members(dep, p'), default=0)`
+    let mid ← ofOption .value po.members
+    let mo ← rdPop mid
+    if ddecl.entity ≠ mo.entity then fail .value else do
+    let a ← rec mo.sim t.dep p'
+    if a.length ≠ mo.count then fail .value else
+    if po.positions.length ≠ a.length ∨ po.membersEntityId.length ≠ a.length then fail .value else
+    ofOption .value (nthPerson po.membersEntityId po.positions a po.count k)
 
 def evalTerms (sys : Sys) (rec : Id → Var → Period → HM Vec) (pid : Id) (ent : Nat) (p : Period) :
     List Term → Vec → HM Vec
@@ -700,7 +740,7 @@ def taintOnHit (x : Id) (v : Var) (p : Period) : HM Unit := do
   let inv ← rdInval so.inval
   if (v, p) ∈ inv then do
     let tr ← rdTracer so.tracer
-    wr so.inval (.inval (addAll inv tr.stack))
+    wrLeaf so.inval (.inval (addAll inv tr.stack))
   else pure ()
 
 /-- `_calculate` -/
@@ -789,7 +829,6 @@ structure PopObs where
   membersEntityId : List Nat
   roles : List Nat                     -- `members_role` (flattened role of each person)
   positions : List Nat                 -- `members_position`
-  orderedMap : List Nat                -- `ordered_members_map`
   roleCounts : List (List Int)         -- `nb_persons(role)` for every role of `stdRoles`
   holders : List HolderObs
 deriving DecidableEq, Repr
@@ -817,7 +856,7 @@ def observePop (x persons : Id) (e : Nat × Id) : HM PopObs := do
   let hs ← mapMH (observeHolder x e.2) po.holders
   pure ⟨po.entity, decide (po.sim = x),
     (match po.members with | none => true | some m => decide (m = persons)),
-    po.count, po.ids, po.membersEntityId, po.roles, po.positions, po.orderedMap,
+    po.count, po.ids, po.membersEntityId, po.roles, po.positions,
     stdRoles.map (fun role =>
       groupSum po.membersEntityId ((roleBits po.roles role).map (fun b => if b then 1 else 0)) po.count),
     hs⟩
@@ -856,11 +895,11 @@ def readKnown (sys : Sys) (x : Id) (v : Var) : HM (List Period) := do
 
 /-- entity structure of one population: count, ids, memberships, which variables have a holder -/
 def readStructure (x : Id) (ent : Nat) :
-    HM (Nat × List Nat × List Nat × List Nat × List Nat × List Nat × List Var) := do
+    HM (Nat × List Nat × List Nat × List Nat × List Nat × List Var) := do
   let so ← rdSim x
   let pid ← ofOption .value (alGet so.pops ent)
   let po ← rdPop pid
-  pure (po.count, po.ids, po.membersEntityId, po.roles, po.positions, po.orderedMap, po.holders.map (fun e => e.1))
+  pure (po.count, po.ids, po.membersEntityId, po.roles, po.positions, po.holders.map (fun e => e.1))
 
 /-- the configuration a simulation calculates with: `opt_out_cache`, `max_spiral_loops`, `memory_config` -/
 def readConfig (x : Id) : HM (Bool × Nat × Option MemConfig) := do
